@@ -132,6 +132,20 @@ def replay(scn):
                     what = A.compare(e, act, free_kinds=True) or None
                 except A.Unprojectable as ex:
                     what = "result not projectable: %s" % ex
+            if what is None and err is None and exp["ok"] and form in ("list", "axis") and i["fill"] != -1 and i["method"] == "none":
+                # the same call with a fill value that is falsy (0, 0.0): it is a value like any other
+                zero = 0 if i["fkind"] == "i" else 0.0
+                calls += 1
+                try:
+                    rz = a.reindex_axis(list(newv), axis=a_abs["dims"][d], **dict(kw, fill_value=zero))
+                    expv = [float(zero) if c == i["fill"] else float(A.cell_enc(c, a_abs["dtype"])) for c in exp["val"]["cells"]]
+                    actv = [float(x) for x in rz.values.ravel().tolist()]
+                    if len(expv) != len(actv) or any(not (x == y or (x != x and y != y)) for x, y in zip(expv, actv)):
+                        what = "fill_value=%r: cells expected %s got %s" % (zero, expv[:8], actv[:8])
+                    elif rz.values.dtype.kind != {"f": "f", "i": "i", "b": "b"}[exp["val"]["dtype"]]:
+                        what = "fill_value=%r: dtype expected kind %s got %s" % (zero, exp["val"]["dtype"], rz.values.dtype)
+                except Exception as ex:  # noqa
+                    what = "fill_value=%r: raised %s: %s" % (zero, type(ex).__name__, str(ex)[:200])
             if what is None and err is None and exp["ok"] and form == "list" and a_abs["dtype"] == "i" and (i["fill"] == -1 or i["fkind"] == "f"):
                 # the fill value given as a narrow NumPy float scalar, on integers that such a type cannot hold: the slices
                 # at labels that existed must still equal the originals exactly
